@@ -752,7 +752,7 @@ pub fn generate(thorough: bool, rng: &mut Rng, ops: &mut Vec<String>, stats: &mu
         stats.add("trace.ops", line.split(' ').nth(4).map_or(0, |r| r.split(';').count() as u64));
         ops.push(line);
     }
-    let rounds = if thorough { 8 } else { 3 };
+    let rounds = if thorough { 14 } else { 3 };
     for _ in 0..rounds {
         for cmd in CMDS {
             let seed = rng.below(1_000_000);
